@@ -1945,6 +1945,9 @@ class Group(Element):
     def _get_children(self, trailing=False):
         if Validator.is_strict(self.validation_level):
             children = self.children.get_ordered_children()
+            # children the structure does not mention (Z segments) are accepted: they must be encoded too
+            known = set(self.ordered_children or [])
+            children.extend(c for c in self.children.get_children() if c[0].name not in known)
         else:
             children = self.children.get_children()
         if not trailing:
